@@ -1,7 +1,11 @@
 """C07 — selection protocols turn criteria into valid, correct cross configurations.
 
-Real selection protocols (EBV, GEBV, random, optimal contribution in the four
-decision encodings; optimal haploid value and usefulness criterion in their
+Real selection protocols (EBV, GEBV, random, optimal contribution, weighted and
+generalised weighted genomic selection, mean expected heterozygosity, mean
+genomic relationship in the four decision encodings; family EBV, allele
+frequency distance, allele unavailability, optimal population value,
+multi-objective genomic selection, genotype builder as subsets; optimal haploid
+value, usefulness criterion and expected maximum breeding value in their
 mate-selection form) run on generated populations with small explicit
 optimisers (exact sorting optimiser for truncation; tiny GA / NSGA-II
 otherwise), under a seeded global generator, an owned entropy/clock world and a
@@ -26,6 +30,18 @@ from pybrops.breed.prot.sel import RandomSelection as RNDS
 from pybrops.breed.prot.sel import OptimalContributionSelection as OCSS
 from pybrops.breed.prot.sel import OptimalHaploidValueSelection as OHVS
 from pybrops.breed.prot.sel import UsefulnessCriterionSelection as UCS
+from pybrops.breed.prot.sel import WeightedGenomicSelection as WGSS
+from pybrops.breed.prot.sel import GeneralizedWeightedGenomicEstimatedBreedingValueSelection as GWGS
+from pybrops.breed.prot.sel import FamilyEstimatedBreedingValueSelection as FEBVS
+from pybrops.breed.prot.sel import MeanExpectedHeterozygositySelection as MEHS
+from pybrops.breed.prot.sel import MeanGenomicRelationshipSelection as MGRS
+from pybrops.breed.prot.sel import PopulationAlleleFrequencyDistanceSelection as PAFDS
+from pybrops.breed.prot.sel import PopulationAlleleUnavailabilitySelection as PAUS
+from pybrops.breed.prot.sel import OptimalPopulationValueSelection as OPVS
+from pybrops.breed.prot.sel import ExpectedMaximumBreedingValueSelection as EMBVS
+from pybrops.breed.prot.sel import MultiObjectiveGenomicSelection as MOGSS
+from pybrops.breed.prot.sel import GenotypeBuilderSelection as GBS
+from pybrops.breed.prot.mate.TwoWayDHCross import TwoWayDHCross
 from pybrops.opt.algo.SortingSubsetOptimizationAlgorithm import SortingSubsetOptimizationAlgorithm
 from pybrops.opt.algo.SubsetGeneticAlgorithm import SubsetGeneticAlgorithm
 from pybrops.opt.algo.RealGeneticAlgorithm import RealGeneticAlgorithm
@@ -44,12 +60,12 @@ PROP = "C07"
 RUNS = {"quick": 10000, "thorough": 500000}
 WALL = {"quick": 240, "thorough": 2700}
 RUN_TIMEOUT = 180
-RULE = ("scenario = protocol family (ebv, gebv, random, ocs, ohv, uc) x decision encoding (subset/real/integer/binary; mate-selection for ohv/uc), "
+RULE = ("scenario = protocol family (ebv, gebv, random, ocs, ohv, uc, wgs, gwgebv, febv, meh, mgr, pafd, pau, opv, embv, mogs, gb) x decision encoding (subset/real/integer/binary; mate-selection for ohv/uc), "
         "population 4-9 taxa x 4-10 markers x 1-2 traits, cross design (ncross 1-5, nparent 2, nmating, nprogeny), single objective (exact sorting "
         "optimiser for subsets, tiny GA otherwise) or multi-objective (tiny NSGA-II with a declared preference transformation), global seed, protocol "
         "generator kind and shuffle script, twin run on the permuted/relabelled population; distinct = (family, encoding, nobj, design class, script); "
         "non-trivial = select() and sample_xconfig() completed")
-COMPONENTS = {"real": ["24 concrete selection protocol classes (select, sosolve/mosolve, problem construction)", "8 selection configuration classes (sample_xconfig)",
+COMPONENTS = {"real": ["46 concrete selection protocol classes of 17 families (select, sosolve/mosolve, problem construction)", "8 selection configuration classes (sample_xconfig)",
                        "sampling utilities", "optimisers (sorting, GA, NSGA-II)", "coancestry / variance-matrix factories for OCS / UC"],
               "stub": ["OS entropy / clock world", "generator subclass with scripted shuffles"]}
 ASSUMPTIONS = ["default 250-generation optimisers are replaced by explicit small ones",
@@ -57,9 +73,22 @@ ASSUMPTIONS = ["default 250-generation optimisers are replaced by explicit small
                "'within one of the proportional share' is read as |count - share| <= 1 (+1e-9)",
                "equivariance is checked for the exact (sorting) optimiser only; stochastic optimisers are not expected to commute with relabelling"]
 
-FAM = {"ebv": EBVS, "gebv": GEBVS, "random": RNDS, "ocs": OCSS, "ohv": OHVS, "uc": UCS}
+FAM = {"ebv": EBVS, "gebv": GEBVS, "random": RNDS, "ocs": OCSS, "ohv": OHVS, "uc": UCS,
+       "wgs": WGSS, "gwgebv": GWGS, "febv": FEBVS, "meh": MEHS, "mgr": MGRS, "pafd": PAFDS, "pau": PAUS, "opv": OPVS,
+       "embv": EMBVS, "mogs": MOGSS, "gb": GBS}
 PREFIX = {"ebv": "EstimatedBreedingValue", "gebv": "GenomicEstimatedBreedingValue", "random": "Random", "ocs": "OptimalContribution",
-          "ohv": "OptimalHaploidValue", "uc": "UsefulnessCriterion"}
+          "ohv": "OptimalHaploidValue", "uc": "UsefulnessCriterion",
+          "wgs": "WeightedGenomic", "gwgebv": "GeneralizedWeightedGenomicEstimatedBreedingValue", "febv": "FamilyEstimatedBreedingValue",
+          "meh": "MeanExpectedHeterozygosity", "mgr": "MeanGenomicRelationship", "pafd": "PopulationAlleleFrequencyDistance",
+          "pau": "PopulationAlleleUnavailability", "opv": "OptimalPopulationValue", "embv": "ExpectedMaximumBreedingValue",
+          "mogs": "MultiObjectiveGenomic", "gb": "GenotypeBuilder"}
+# families whose solution names candidate crosses (mate selection) rather than individuals
+MATE = ("ohv", "uc", "embv")
+# encodings each of the added families is exercised in (the others are rejected by the pinned tree before a configuration exists)
+ENCS = {"wgs": ["subset", "subset", "real", "integer", "binary"], "gwgebv": ["subset", "subset", "real", "integer", "binary"],
+        "meh": ["subset", "real", "integer", "binary"], "mgr": ["subset", "real", "integer", "binary"],
+        "febv": ["subset"], "pafd": ["subset"], "pau": ["subset"], "opv": ["subset"], "mogs": ["subset"], "gb": ["subset"],
+        "embv": ["subset", "subset", "real", "binary"]}
 ENC = {"subset": "Subset", "real": "Real", "integer": "Integer", "binary": "Binary"}
 SO = {"subset": SubsetGeneticAlgorithm, "real": RealGeneticAlgorithm, "integer": IntegerGeneticAlgorithm, "binary": BinaryGeneticAlgorithm}
 MO = {"subset": NSGA2SubsetGeneticAlgorithm, "real": NSGA2RealGeneticAlgorithm, "integer": NSGA2IntegerGeneticAlgorithm, "binary": NSGA2BinaryGeneticAlgorithm}
@@ -67,6 +96,14 @@ MO = {"subset": NSGA2SubsetGeneticAlgorithm, "real": NSGA2RealGeneticAlgorithm, 
 
 def _sumtr(x, latent, **k):
     return latent.sum(keepdims=True)
+
+
+def _absw(u):
+    return numpy.absolute(u)
+
+
+def _postarget(u):
+    return (u > 0.0).astype(float)
 
 
 def _ndset(mat, **k):
@@ -79,18 +116,24 @@ def generate(R, tier):
     enc = R.choice(["subset", "subset", "real", "integer", "binary"])
     if fam in ("ohv", "uc"):
         enc = R.choice(["subset", "subset", "real"])
+    more = R.random() < 0.45
+    fam2 = R.choice(["wgs", "wgs", "gwgebv", "gwgebv", "febv", "meh", "mgr", "pafd", "pau", "opv", "embv", "mogs", "gb"])
+    enc2 = R.choice(ENCS[fam2])
+    alpha = R.choice([0.0, 0.25, 0.5, 1.0])
+    if more:
+        fam, enc = fam2, enc2
     nt = R.randint(4, 9)
     ncross = R.randint(1, 5)
-    nparent = 2 if fam == "uc" else R.choice([2, 2, 2, 3, 4])      # the usefulness criterion is defined for two-way crosses
-    if enc == "subset" and fam not in ("ohv", "uc"):
+    nparent = 2 if fam in ("uc", "embv") else R.choice([2, 2, 2, 3, 4])      # the usefulness criterion is defined for two-way crosses
+    if enc == "subset" and fam not in MATE:
         ncross = max(1, min(ncross, nt // nparent))          # a subset solution names ncross*nparent distinct individuals
         if ncross * nparent > nt:
             nparent = 2
             ncross = max(1, min(ncross, nt // 2))
-    if fam in ("ohv", "uc") and enc == "subset":
+    if fam in MATE and enc == "subset":
         import math
         ncross = max(1, min(ncross, math.comb(nt, nparent)))   # a subset of the candidate crosses (unordered parent sets)
-    return {"fam": fam, "enc": enc, "world": {"seed": R.randrange(1 << 30), "ntaxa": nt, "nvrnt": R.randint(4, 10), "ntrait": R.randint(1, 2)},
+    return {"fam": fam, "enc": enc, "alpha": alpha, "world": {"seed": R.randrange(1 << 30), "ntaxa": nt, "nvrnt": R.randint(4, 10), "ntrait": R.randint(1, 2)},
             "ncross": ncross, "nparent": nparent, "nmating": R.randint(1, 2), "nprogeny": R.randint(1, 3),
             "mo": R.random() < 0.3, "exact": R.random() < 0.6, "seed": R.randrange(1 << 31), "entropy_world": R.randrange(1000),
             "rng": {"kind": R.choice(["Generator", "RandomState"]), "seed": R.randrange(1 << 30),
@@ -110,7 +153,7 @@ def shrink(sc):
             yield c
     w = sc["world"]
     for k, small in (("ntaxa", 4), ("nvrnt", 4), ("ntrait", 1)):
-        if w[k] > small and not (k == "ntaxa" and sc["enc"] == "subset" and ((w[k] - 1) // sc["nparent"] < sc["ncross"] or sc["fam"] in ("ohv", "uc"))):
+        if w[k] > small and not (k == "ntaxa" and sc["enc"] == "subset" and ((w[k] - 1) // sc["nparent"] < sc["ncross"] or sc["fam"] in MATE)):
             c = copy.deepcopy(sc)
             c["world"][k] -= 1
             yield c
@@ -138,15 +181,27 @@ def _protocol(sc, g, ntr):
     fam, enc = sc["fam"], sc["enc"]
     cls = getattr(FAM[fam], PREFIX[fam] + ENC[enc] + "Selection")
     kw = dict(ntrait=ntr, ncross=sc["ncross"], nparent=sc["nparent"], nmating=sc["nmating"], nprogeny=sc["nprogeny"], rng=g)
-    if fam in ("ebv", "gebv", "ocs"):
+    if fam in ("ebv", "gebv", "ocs", "febv"):
         kw["unscale"] = True
-    if fam == "ocs":
+    if fam == "gwgebv":
+        kw["alpha"] = sc.get("alpha", 0.5)
+    if fam in ("pafd", "pau", "mogs"):
+        kw.update(weight=_absw, target=_postarget)
+    if fam in ("opv", "gb"):
+        kw["nhaploblk"] = 2
+    if fam == "gb":
+        kw["nbestfndr"] = 2
+    if fam == "embv":
+        kw.update(nrep=2, mateprot=TwoWayDHCross(rng=g), unique_parents=sc.get("unique_parents", True))
+    if fam in ("ocs", "mgr"):
         kw["cmatfcty"] = DenseMolecularCoancestryMatrixFactory()
     if fam == "ohv":
         kw.update(nhaploblk=2, unique_parents=sc.get("unique_parents", True))
     if fam == "uc":
         kw.update(nself=0, upper_percentile=0.1, vmatfcty=DenseTwoWayDHAdditiveGeneticVarianceMatrixFactory(), gmapfn=HaldaneMapFunction(), unique_parents=sc.get("unique_parents", True))
-    nlat = ntr + 1 if fam == "ocs" else ntr
+    nlat = ntr + 1 if fam == "ocs" else (1 if fam in ("meh", "mgr") else (2 * ntr if fam == "mogs" else ntr))   # pafd/pau: latentfn returns one entry per trait (their nlatent attribute says 2t)
+    if fam == "febv":
+        nlat = 0                      # latent vector also carries one entry per family: single objective only
     if sc["mo"] and nlat >= 2:
         kw.update(nobj=nlat, obj_wt=numpy.ones(nlat), ndset_wt=1.0, ndset_trans=_ndset, moalgo=MO[enc](ngen=sc["ngen"], pop_size=sc["pop"]))
         mo = True
@@ -155,6 +210,32 @@ def _protocol(sc, g, ntr):
         kw.update(nobj=1, obj_wt=numpy.array([1.0]), obj_trans=_sumtr, soalgo=algo)
         mo = False
     return cls, kw, mo
+
+
+def _weighted_gebv(pg, gm, alpha):
+    """Independent criterion of the (generalised) weighted genomic selection
+    protocols, from the allele calls: sum over traits and loci of
+    count(allele 1) * effect * (frequency of the favourable allele)^-alpha,
+    the favourable allele being allele 1 for a positive effect and allele 0
+    for a negative one (a frequency of zero leaves the effect unweighted)."""
+    calls = numpy.asarray(pg.mat, dtype=int)                # (phases, taxa, loci)
+    nph, nt, nv = calls.shape
+    u = numpy.asarray(gm.u_a, dtype=float)                  # (loci, traits)
+    out = []
+    tot = [sum(int(calls[m, i, j]) for m in range(nph) for i in range(nt)) for j in range(nv)]
+    for i in range(nt):
+        acc = 0.0
+        for j in range(nv):
+            x = sum(int(calls[m, i, j]) for m in range(nph))
+            for t in range(u.shape[1]):
+                e = float(u[j, t])
+                if e == 0.0:
+                    continue
+                f = tot[j] / float(nph * nt) if e > 0 else (nph * nt - tot[j]) / float(nph * nt)
+                w = 1.0 if f == 0.0 else f ** (-alpha)
+                acc += x * e * w
+        out.append(acc)
+    return numpy.array(out)
 
 
 def _repeats(x):
@@ -224,11 +305,11 @@ def execute(sc):
                 if ds.ndim == 1 and set(ds.tolist()) != set(range(len(xmap))):
                     V.append(viol("candidates-selectable", C, "decision-space-vs-cross-map", "the cross map holds %d candidate crosses but the decision space offered to the optimiser has %d entries (unique_parents=%s)" % (len(xmap), len(ds), up)))
                     return _out(sc, V, log, faults, probes, True, g)
-        if fam in ("ohv", "uc") and up and any(len(set(r)) != len(r) for r in rows):
+        if fam in MATE and up and any(len(set(r)) != len(r) for r in rows):
             bad = [r for r in rows if len(set(r)) != len(r)][0]
             V.append(viol("unique-parents-respected", C, "self-pairing", "unique_parents=True but cross %s pairs an individual with itself (crosses %s)" % (list(bad), xc.tolist())))
             return _out(sc, V, log, faults, probes, True, g)
-        if fam in ("ohv", "uc") and up:
+        if fam in MATE and up:
             allc = [tuple(sorted(r)) for r in numpy.asarray(cfg.xconfig_xmap).tolist()]
             if len(set(allc)) != len(allc):
                 V.append(viol("unique-parents-respected", C, "duplicate-candidate-cross", "the candidate cross map lists the same set of parents more than once (%d candidates, %d distinct)" % (len(allc), len(set(allc)))))
@@ -290,12 +371,14 @@ def execute(sc):
                 return _out(sc, V, log, faults, probes, True, g)
             probes["mo_front_checked"] = 1
     # ---- truncation with the exact optimiser picks exactly the best candidates; relabelling permutes the choice
-    exact = (not mo) and enc == "subset" and sc["exact"] and fam in ("ebv", "gebv")
+    exact = (not mo) and enc == "subset" and sc["exact"] and fam in ("ebv", "gebv", "wgs", "gwgebv")
     if exact:
         if fam == "ebv":
             crit = numpy.asarray(bv.unscale(), dtype=float).sum(1)
-        else:
+        elif fam == "gebv":
             crit = numpy.asarray(gm.gebv(pg).unscale(), dtype=float).sum(1)
+        else:
+            crit = _weighted_gebv(pg, gm, 0.5 if fam == "wgs" else sc.get("alpha", 0.5))
         k = len(decn)
         srt = numpy.sort(crit)[::-1]
         if k < nt and abs(srt[k - 1] - srt[k]) < 1e-9:
